@@ -1699,7 +1699,8 @@ func (c *DnsController) UpdateDnsCacheTtl(host string, dnsTyp uint16, answers, n
 	return c.__updateDnsCacheDeadline("", host, dnsTyp, answers, ns, extra, func(now time.Time, host string) (daedline time.Time, originalDeadline time.Time) {
 		originalDeadline = now.Add(time.Duration(ttl) * time.Second)
 		if rt := c.runtime(); rt != nil {
-			if fixedTtl, ok := rt.fixedDomainTtl[host]; ok {
+			// DNS names are case-insensitive; clients may spell the question in any case.
+			if fixedTtl, ok := rt.fixedDomainTtl[strings.ToLower(host)]; ok {
 				return now.Add(time.Duration(fixedTtl) * time.Second), originalDeadline
 			}
 		}
@@ -1712,7 +1713,8 @@ func (c *DnsController) UpdateDnsCacheTtlWithKey(cacheKey string, host string, d
 	return c.__updateDnsCacheDeadline(cacheKey, host, dnsTyp, answers, ns, extra, func(now time.Time, host string) (deadline time.Time, originalDeadline time.Time) {
 		originalDeadline = now.Add(time.Duration(ttl) * time.Second)
 		if rt := c.runtime(); rt != nil {
-			if fixedTtl, ok := rt.fixedDomainTtl[host]; ok {
+			// DNS names are case-insensitive; clients may spell the question in any case.
+			if fixedTtl, ok := rt.fixedDomainTtl[strings.ToLower(host)]; ok {
 				return now.Add(time.Duration(fixedTtl) * time.Second), originalDeadline
 			}
 		}
